@@ -298,6 +298,11 @@ STMT_RULES = {
     "object-into-int-array-element": ("arr[0] = new Priv();", "arr[0] = 4;"),
     "array-into-int-array-element": ("int[] other = {1}; arr[1] = other;", "int[] other = {1}; arr[1] = other[0];"),
     "string-into-int-array-element": ("arr[2] = \"s\";", "arr[2] = 2;"),
+    # an assignment used as a value has the type of the slot it assigns to (hunt C07/d7, former open finding)
+    "assignment-expression-float-into-int": ("float ay = 0.0f; int az = (ay = 2.5f);", "float ay = 0.0f; float az = (ay = 2.5f);"),
+    "element-assignment-expression-into-string": ("string es = (arr[0] = 1);", "int es = (arr[0] = 1);"),
+    "member-assignment-expression-into-string": ("string ms = (po.pub = 1);", "int ms = (po.pub = 1);"),
+    "assignment-expression-to-final-as-operand": ("arr[0] = (fin = 4) + 1;", "arr[0] = (ok = 4) + 1;"),
     # a declaration inside a '? :' branch ends with the branch (hunt C09/d6)
     "ternary-then-declaration-used-after": ("(ok == 1) ? int tv = 1; : echo(0); ok = tv;", "int tv = 0; (ok == 1) ? tv = 1; : echo(0); ok = tv;"),
     "ternary-else-declaration-used-after": ("(ok == 1) ? echo(0); : int tv = 1; ok = tv;", "int tv = 0; (ok == 1) ? echo(0); : tv = 1; ok = tv;"),
